@@ -55,23 +55,22 @@ UnlockExpect(p) == IF ~Locked THEN "ok"                    \* unlocking plain ma
 
 Step(a, x, e) == /\ steps' = steps + 1 /\ last' = [act |-> a, arg |-> x, expect |-> e, usage |-> lock'.usage]
 
+(* locking binds the key AS IT IS NOW: a public part changed earlier (undetected by 254/255) is the new baseline *)
 SetPw(u, s, p) ==
   /\ steps < MaxSteps
-  /\ IF ~Locked /\ CanCreate(u, s) /\ pub_ok
+  /\ IF ~Locked /\ CanCreate(u, s)
      THEN /\ lock' = [usage |-> u, s2k |-> s, pw |-> p]
-          /\ blob_ok' = TRUE /\ s2k_ok' = TRUE
+          /\ blob_ok' = TRUE /\ s2k_ok' = TRUE /\ pub_ok' = TRUE
           /\ Step("set_pw", <<u, s, p>>, "ok")
-     ELSE /\ UNCHANGED <<lock, blob_ok, s2k_ok>>
+     ELSE /\ UNCHANGED <<lock, blob_ok, s2k_ok, pub_ok>>
           \* locking locked material, or a combination the RFC forbids, must be refused
-          /\ Step("set_pw", <<u, s, p>>, IF ~Locked /\ ~pub_ok /\ CanCreate(u, s) THEN "ok" ELSE "err")
-  /\ UNCHANGED pub_ok
+          /\ Step("set_pw", <<u, s, p>>, "err")
 
 RemovePw(p) ==
   /\ steps < MaxSteps
   /\ IF UnlockExpect(p) = "ok"
-     THEN lock' = Plain /\ blob_ok' = TRUE /\ s2k_ok' = TRUE /\ Step("remove_pw", p, "ok")
-     ELSE UNCHANGED <<lock, blob_ok, s2k_ok>> /\ Step("remove_pw", p, "err")
-  /\ UNCHANGED pub_ok
+     THEN lock' = Plain /\ blob_ok' = TRUE /\ s2k_ok' = TRUE /\ pub_ok' = TRUE /\ Step("remove_pw", p, "ok")
+     ELSE UNCHANGED <<lock, blob_ok, s2k_ok, pub_ok>> /\ Step("remove_pw", p, "err")
 
 Unlock(p) ==
   /\ steps < MaxSteps
